@@ -240,7 +240,11 @@ func (p *Proof) UnmarshalJSON(data []byte) error {
 	const fpSize = 32
 	proofBytes := make([]byte, 8*fpSize)
 	for i := 0; i < 8; i++ {
-		copy(proofBytes[i*fpSize:(i+1)*fpSize], proofInts[i].Bytes())
+		if proofInts[i].Sign() < 0 || proofInts[i].BitLen() > 8*fpSize {
+			return fmt.Errorf("invalid proof coordinate: %s", proofHexNumbers[i])
+		}
+		// right-align in the 32-byte slot: coordinates are big-endian and may have leading zero bytes
+		proofInts[i].FillBytes(proofBytes[i*fpSize : (i+1)*fpSize])
 	}
 
 	p.Proof = groth16.NewProof(ecc.BN254)
